@@ -17,14 +17,17 @@ TraceLog == ndJsonDeserialize(IOEnv.TRACE)
 VARIABLES dead,   \* soft mode: the current trace was rejected, its remaining lines are skipped
           l,      \* next line
           tov,    \* the writer observed two overlapping calls
-          tbad    \* a flushed message was not the solo response of that event for that subscriber / foreign key
-tvars == <<vars, l, tov, tbad, dead>>
+          tbad,   \* a flushed message was not the solo response of that event for that subscriber / foreign key
+          tdl     \* Source.Start saw a trigger context that carries a deadline (the creator's request deadline leaked into the shared context)
+tvars == <<vars, l, tov, tbad, tdl, dead>>
 
 Ev == TraceLog[l]
 Act(e) == <<e.k, e.i, e.j>>
 
 WriterExclusiveT == WriterExclusive /\ ~tov
 OrderedExactT == OrderedExact /\ ~tbad
+\* the trigger context is detached from the request context of the subscriber that happened to create it
+DetachedContext == ~tdl
 
 Failed ==
   IF Prop = "C12"
@@ -32,11 +35,11 @@ Failed ==
           ~CASE n = "NoWriteAfterClose" -> NoWriteAfterClose [] n = "ClosedOnce" -> ClosedOnce [] n = "WriterExclusiveT" -> WriterExclusiveT
              [] n = "OrderedExactT" -> OrderedExactT [] n = "RegistryConsistent" -> RegistryConsistent}
   ELSE {n \in {"SharedIffSameKey", "StartOncePerLivePeriod", "NoStaleInit", "NoStaleDetach", "NoStaleUpdater", "NoLateInit",
-               "Quiescent", "CancelledWhenDone", "RegistryConsistent"} :
+               "Quiescent", "CancelledWhenDone", "RegistryConsistent", "DetachedContext"} :
           ~CASE n = "SharedIffSameKey" -> SharedIffSameKey [] n = "StartOncePerLivePeriod" -> StartOncePerLivePeriod
              [] n = "NoStaleInit" -> NoStaleInit [] n = "NoStaleDetach" -> NoStaleDetach [] n = "NoStaleUpdater" -> NoStaleUpdater
              [] n = "NoLateInit" -> NoLateInit [] n = "Quiescent" -> Quiescent [] n = "CancelledWhenDone" -> CancelledWhenDone
-             [] n = "RegistryConsistent" -> RegistryConsistent}
+             [] n = "RegistryConsistent" -> RegistryConsistent [] n = "DetachedContext" -> DetachedContext}
 Bad == Failed # {}
 \* printed once per rejected trace: in the first state in which a property is false
 Judge == IF Soft /\ ~dead /\ Bad THEN PrintT(<<"INV", Failed, l>>) ELSE TRUE
@@ -52,9 +55,9 @@ StartState ==
   /\ lab' = [a |-> NoActor, n |-> "reset", x |-> 0, y |-> 0, z |-> 0]
 
 TraceInit ==
-  /\ l = 1 /\ tov = FALSE /\ tbad = FALSE /\ dead = FALSE
+  /\ l = 1 /\ tov = FALSE /\ tbad = FALSE /\ tdl = FALSE /\ dead = FALSE
   /\ TLCSet(1, 0)
-  /\ cfg = [key |-> [s \in Subs |-> 1], filt |-> [s \in Subs |-> "all"], conn |-> [s \in Subs |-> 1], start |-> [i \in Inst |-> "ok"]]
+  /\ cfg = [key |-> [s \in Subs |-> 1], filt |-> [s \in Subs |-> "all"], conn |-> [s \in Subs |-> 1], start |-> [i \in Inst |-> "ok"], fetch |-> [s \in Subs |-> FALSE]]
   /\ g = InitG /\ o = InitO
   /\ ac = [a \in Actors |-> Local0]
   /\ lab = [a |-> NoActor, n |-> "init", x |-> 0, y |-> 0, z |-> 0]
@@ -62,9 +65,9 @@ TraceInit ==
 T_Reset ==
   /\ l <= Len(TraceLog) /\ Ev.ev = "reset" /\ l' = l + 1
   /\ cfg' = [key |-> [s \in Subs |-> Ev.key[s]], filt |-> [s \in Subs |-> Ev.filt[s]],
-             conn |-> [s \in Subs |-> Ev.conn[s]], start |-> [i \in Inst |-> Ev.start[i]]]
+             conn |-> [s \in Subs |-> Ev.conn[s]], start |-> [i \in Inst |-> Ev.start[i]], fetch |-> [s \in Subs |-> Ev.fetch[s]]]
   /\ StartState
-  /\ tov' = FALSE /\ tbad' = FALSE /\ dead' = FALSE
+  /\ tov' = FALSE /\ tbad' = FALSE /\ tdl' = FALSE /\ dead' = FALSE
 
 \* what the harness measured when everything had returned must be what the specification says is left
 T_End ==
@@ -77,7 +80,7 @@ T_End ==
   /\ Ev.conns = Cardinality({cfg.conn[s] : s \in g.byid})
   /\ Ev.sinc = o.subInc /\ Ev.sdec = o.subDec /\ Ev.tinc = o.trigInc /\ Ev.tdec = o.trigDec
   /\ Ev.uncancelled = Cardinality({i \in Inst : o.nstart[i] > 0 /\ ~g.tctx[i]})
-  /\ UNCHANGED <<vars, tov, tbad, dead>>
+  /\ UNCHANGED <<vars, tov, tbad, tdl, dead>>
 
 T_Step ==
   /\ ~dead /\ ~(Soft /\ Bad)
@@ -87,6 +90,7 @@ T_Step ==
   /\ lab'.n = Ev.ev /\ lab'.x = Ev.x /\ lab'.y = Ev.y /\ lab'.z = Ev.z
   /\ tov' = (tov \/ Ev.ov = 1)
   /\ tbad' = (tbad \/ (Ev.ev = "w.flush" /\ Ev.c = 0))
+  /\ tdl' = (tdl \/ (Ev.ev = "h.start" /\ Ev.c = 0))
   /\ UNCHANGED dead
 
 \* ---- soft mode -------------------------------------------------------------------------------------
@@ -95,14 +99,14 @@ T_Skip ==
   /\ Soft /\ (dead \/ Bad)
   /\ l <= Len(TraceLog) /\ Ev.ev # "reset" /\ l' = l + 1
   /\ dead' = TRUE
-  /\ UNCHANGED <<vars, tov, tbad>>
+  /\ UNCHANGED <<vars, tov, tbad, tdl>>
 T_Stuck ==
   /\ Soft /\ ~dead /\ ~Bad
   /\ l <= Len(TraceLog) /\ Ev.ev # "reset"
   /\ ~ENABLED (T_Step \/ T_End)
   /\ PrintT(<<"STUCK", Ev.ev, l>>)
   /\ l' = l + 1 /\ dead' = TRUE
-  /\ UNCHANGED <<vars, tov, tbad>>
+  /\ UNCHANGED <<vars, tov, tbad, tdl>>
 
 TraceNext == T_Reset \/ T_End \/ T_Step \/ T_Skip \/ T_Stuck
 TraceSpec == TraceInit /\ [][TraceNext]_tvars
@@ -112,7 +116,8 @@ TraceAccepted ==
   IF TLCGet(1) = Len(TraceLog) + 1 THEN TRUE
   ELSE /\ PrintT(<<"TRACE_STUCK_AT_LINE", TLCGet(1)>>)
        /\ FALSE
-TraceView == <<cfg, g, o, ac, l, tov, tbad, dead>>
+TraceView == <<cfg, g, o, ac, l, tov, tbad, tdl, dead>>
 CfgAll(c) == TRUE
+TraceTolerant == TRUE
 StartAll == {"ok", "fail", "ctx"}
 =============================================================================
